@@ -263,7 +263,7 @@ spif_ustr_init_from_fd(spif_ustr_t self, int fd)
     for (p = self->s; ((n = read(fd, p, buff_inc)) > 0) || (errno == EINTR);) {
         self->size += n;
         self->s = (spif_charptr_t) REALLOC(self->s, self->size);
-        p += n;
+        p = self->s + (self->size - buff_inc);
     }
     self->len = self->size - buff_inc;
     self->size = self->len + 1;
